@@ -110,6 +110,7 @@ func c20Scenario(p c20P, b Bounds) *Scenario {
 					lib, peer, pipe := NewPipe(PipeOpts{Name: fmt.Sprintf("conn%d", k), CloseUnblocksRecv: true})
 					pipes = append(pipes, pipe)
 					idle := name == "connidle"
+					breaks := name == "connerr" // the transport fails after the call was answered: the server exits with an error status
 					vs.GoNamed(fmt.Sprintf("conn%d", k), func() {
 						vs.Event("env", "connect", fmt.Sprint(k))
 						acc.queue = append(acc.queue, lib)
@@ -126,11 +127,12 @@ func c20Scenario(p c20P, b Bounds) *Scenario {
 						}
 						rec, ok := peer.Recv()
 						vs.Note("client-got", fmt.Sprint(k), string(rec), fmt.Sprint(ok))
-						if ok {
-							peer.Close()
-						} else {
-							peer.Close()
+						if breaks && ok {
+							vs.Note("env", "transport-failure", fmt.Sprint(k))
+							pipe.FailRecv = errFault
+							peer.Recv() // until the server side lets go of the connection
 						}
+						peer.Close()
 					})
 					_ = failing
 				}
@@ -146,7 +148,7 @@ func c20Scenario(p c20P, b Bounds) *Scenario {
 				}
 				for _, it := range p.Items {
 					switch it {
-					case "conn1", "conn2", "conn3", "connidle":
+					case "conn1", "conn2", "conn3", "connidle", "connerr":
 						connect(it, false)
 					case "connfail":
 						connect(it, true)
@@ -236,7 +238,7 @@ func c20Scenario(p c20P, b Bounds) *Scenario {
 							v = append(v, Viol{"C20.R2", "Finish was called while a handler was running"})
 						}
 						st := e.Arg(2)
-						if !strings.Contains(st, "stopped=true") && !strings.Contains(st, "closed=true") {
+						if !strings.Contains(st, "stopped=true") && !strings.Contains(st, "closed=true") && !(strings.Contains(st, errFault.Error()) && findEv(x, 0, "env", "transport-failure") >= 0) {
 							v = append(v, Viol{"C20.R2", "unexpected exit status " + st})
 						}
 						if strings.Contains(st, "stopped=true") {
@@ -367,7 +369,7 @@ func (l *fakeListener) Addr() net.Addr { return &net.TCPAddr{} }
 func c20Scenarios(tier string) []*Scenario {
 	var out []*Scenario
 	q := tier == "quick"
-	events := []string{"conn1", "conn2", "connfail", "connidle", "cancel", "fail-other", "fail-closed"}
+	events := []string{"conn1", "conn2", "connfail", "connidle", "connerr", "cancel", "fail-other", "fail-closed"}
 	var subsets [][]string
 	n := len(events)
 	maxSize := 3
@@ -417,6 +419,7 @@ func c20Scenarios(tier string) []*Scenario {
 		}
 	}
 	if q {
+		out = append(out, c20Scenario(c20P{Items: []string{"connerr", "cancel"}}, Bounds{1, 1, 0}), c20Scenario(c20P{Items: []string{"conn1", "connerr"}}, Bounds{1, 1, 0}))
 		out = append(out, c20Scenario(c20P{Items: []string{"conn1", "conn2", "cancel"}}, Bounds{1, 1, 0}))
 		out = append(out, c20Scenario(c20P{Items: []string{"conn1", "connfail", "cancel"}}, Bounds{1, 1, 0}))
 		out = append(out, c20Net(Bounds{2, -1, 0}))
